@@ -280,9 +280,11 @@ Proof.
     unfold detach_server. destruct (get_srv name (c_servers c0)) as [s|]; [|exact HF0].
     pose proof (Aff_del_server c0 name (ac_srv_names _ HA0) HF0) as H1.
     destruct (s_parent s) as [p|]; [|exact H1].
-    eapply Aff_same_core; [|exact H1].
-    eapply same_core_trans; [apply same_core_upd_bkt|]. eapply same_core_trans; [apply propagate_traits_sc|].
-    eapply same_core_trans; [apply bump_affinity_sc|apply adjust_down_sc].
+    eapply Aff_same_core; [apply unhook_server_sc|exact H1].
+  - (* OMoveServer *)
+    unfold move_server. destruct (get_srv name (c_servers c)) as [s|]; [|exact HF].
+    eapply Aff_same_core; [apply attach_common_sc|]. apply Aff_upd_srv_soft; [intros x; repeat split|].
+    destruct (s_parent s) as [p0|]; [eapply Aff_same_core; [apply unhook_server_sc|exact HF]|exact HF].
   - unfold srv_set_state. destruct (get_srv name (c_servers c)) as [s|]; [|exact HF].
     destruct (sstate_eqb (s_state s) st); [exact HF|].
     assert (H1 : Aff (c_upd_srv name (fun x => x <| s_state := st |> <| s_since := since |>) c))
